@@ -6,7 +6,7 @@
  * loop are wrapped so that every poke of the module (immediate, socket readable, socket writable) is recorded with its return.
  * One forked child per program.
  *   rq ANS...   wq ANS...      answers of the engine to reads / writes, in order: D<n>, R, W, Z, S0, SE, X (exhausted: R for reads, W for writes)
- *   script ID rc N / ops / endscript        what the callback of request ID does (read, write, rcancel, wcancel)
+ *   script ID rc N / ops / endscript        what the callback of request ID does (read, write, rcancel, wcancel, close)
  *   main: open | read ID LEN MIN | write ID LEN MIN | rcancel | wcancel | env MASK | runk | close
  */
 #include <sys/time.h>
@@ -291,8 +291,9 @@ exec_op(const char * l, int ctx)
 		vt_begin("run_ret"); vt_int("rc", rc); vt_end();
 		if (k != NULL && !noop_ran)
 			events_timer_cancel(k);
-	} else if (strcmp(op, "close") == 0 && C != NULL && ctx == 0 && !cur_r && !cur_w) {
-		vt_begin("close"); vt_end();
+	} else if (strcmp(op, "close") == 0 && C != NULL && !cur_r && !cur_w) {
+		/* (also from inside a callback: http.c closes the context whenever a request ends) */
+		vt_begin("close"); vt_int("ctx", ctx); vt_end();
 		network_ssl_close(C);
 		C = NULL;
 		vt_begin("close_ret"); vt_end();
